@@ -93,7 +93,8 @@ def check(ix, rep):
         want = opref.DENSE.get(nc)
         f = c.methods['update']
         if nf[0] == 'unknown':
-            raise AnalysisError('%s: %s.update no longer summarised (%s)' % (f.where, c.name, nf[1]))
+            rep.error('%s: %s.update no longer summarised (%s)' % (f.where, c.name, nf[1]))
+            continue
         decided += 1
         if nf == want:
             rep.ok('R-OPSUM', f.module.rel, '%s.update' % c.name, 'dense-online:%s' % nc, '%s [%s]' % (opref.describe(nf), trail), f.node.lineno)
